@@ -157,6 +157,13 @@ HIST_CLUSTERS = {
     "2ba-swapped-places": [(_SB, _P1), (_SA, _P2)],
     "2ac": [(_SA, _P1), (_SC, _P2)], "2ad": [(_SA, _P1), (_SD, _P2)],
     "2ab-moved": [(_SA, _P1), (_SB, _P3)],
+    # dimers along a coordinate axis: the same direction to the last bit,
+    # another separation
+    "2x-near": [(_SA, (0.3, 0.2, 5.0)), (_SA, (1.5, 0.2, 5.0))],
+    "2x-far": [(_SA, (0.3, 0.2, 5.0)), (_SA, (2.1, 0.2, 5.0))],
+    "2x-far-reversed": [(_SA, (2.1, 0.2, 5.0)), (_SA, (0.3, 0.2, 5.0))],
+    "2z-near": [(_SA, (0.3, 0.2, 5.0)), (_SA, (0.3, 0.2, 6.0))],
+    "2z-far": [(_SA, (0.3, 0.2, 5.0)), (_SA, (0.3, 0.2, 6.5))],
 }
 
 
